@@ -16,6 +16,7 @@
   Property theorems only; lemmas are in Lemmas/Half.lean.
 -/
 import PolyVerif.Lemmas.Half
+import PolyVerif.Gen.SpzDequant
 
 namespace PolyVerif
 namespace C15
@@ -89,6 +90,40 @@ theorem half_is_binary16 (E : Env ℝ) (hE : Half.RealEnv E) (h : BitVec 16) :
     div/mod form the driver runs — for every scalar type, so at `Float` too -/
 theorem half_bits_form {α : Type} [Scalar α] (E : Env α) (h : BitVec 16) :
     halfToFloatBits E h = halfToFloat E h.toNat := halfToFloatBits_eq E h
+
+/-- SOURCE TIE (engine F): `Spz.halfToFloat` — the definition `half_is_binary16` and everything below is stated about
+    — equals `Gen.SpzDequant.halfSrc`, the definition REGENERATED from /repo/formats/spz/util.go on every run
+    (go/facts mode c15.spzdequant), on every 16-bit pattern and for every scalar type; so the binary16 theorems are
+    theorems about regenerated code -/
+theorem halfToFloat_from_source {α : Type} [Scalar α] (E : Env α) (h : BitVec 16) :
+    halfToFloat E h.toNat = PolyVerif.Gen.SpzDequant.halfSrc E h :=
+  (halfToFloatBits_eq E h).symm
+
+/-- positions: version 2 reads record `i` at bytes `i*9 …` through the regenerated expression; version 1 reads uint16
+    `i*3 + k` (bytes `2·(i*3+k)`, `+1`, little endian) through the regenerated `halfToFloat` -/
+theorem spz_position_stride_from_source {α : Type} [Scalar α] (E : Env α) (h : Header) (a : List UInt8) :
+    decodePositions E h a = (List.range h.numPoints).map fun i =>
+      if h.version = 1 then
+        (⟨PolyVerif.Gen.SpzDequant.halfSrc E (BitVec.ofNat 16 ((byteAt a (2 * (i * 3))).toNat + 256 * (byteAt a (2 * (i * 3) + 1)).toNat)),
+          PolyVerif.Gen.SpzDequant.halfSrc E (BitVec.ofNat 16 ((byteAt a (2 * (i * 3 + 1))).toNat + 256 * (byteAt a (2 * (i * 3 + 1) + 1)).toNat)),
+          PolyVerif.Gen.SpzDequant.halfSrc E (BitVec.ofNat 16 ((byteAt a (2 * (i * 3 + 2))).toNat + 256 * (byteAt a (2 * (i * 3 + 2) + 1)).toNat))⟩ : V3 α)
+      else
+        PolyVerif.Gen.SpzDequant.posSrc E h.fractionalBits (byteAt a (i * 9 + 0)) (byteAt a (i * 9 + 1)) (byteAt a (i * 9 + 2))
+          (byteAt a (i * 9 + 3)) (byteAt a (i * 9 + 4)) (byteAt a (i * 9 + 5)) (byteAt a (i * 9 + 6)) (byteAt a (i * 9 + 7))
+          (byteAt a (i * 9 + 8)) := by
+  have key : ∀ b0 b1 : UInt8, halfCoord E b0 b1 =
+      PolyVerif.Gen.SpzDequant.halfSrc E (BitVec.ofNat 16 (b0.toNat + 256 * b1.toNat)) := by
+    intro b0 b1
+    rw [← halfToFloat_from_source, BitVec.toNat_ofNat]
+    have := b0.toNat_lt; have := b1.toNat_lt
+    unfold halfCoord
+    congr 1; omega
+  unfold decodePositions
+  apply List.map_congr_left
+  intro i _
+  by_cases hv : h.version = 1
+  · simp only [if_pos hv, key]
+  · simp only [if_neg hv]; rfl
 
 /-- the classes spelled out as closed formulas: normal `±2^(e−15)·(1 + m/1024)`, subnormal and zero
     `±2^−14·m/1024`, infinity, NaN -/
